@@ -17,7 +17,7 @@ func init() {
 			{Name: "hello-skip-relays", File: "comm.go", Old: "\tfor t := range p.myRelays {\n\t\tsubscriptions[t] = true\n\t}", New: "\tfor t := range p.myRelays {\n\t\tif len(p.mySubs) > 0 {\n\t\t\tbreak\n\t\t}\n\t\tsubscriptions[t] = true\n\t}", Expect: "R01.4"},
 		}})
 	register(&Property{ID: "C02", Run: runC02,
-		Explain: "Structural necessary conditions of C02: every path to a user validator or to local delivery passes a test-and-set of the seen cache that returned fresh, and that test-and-set is atomic. (R02.1) in validation.validate the fresh edge of markSeen dominates every validator invocation, the async hand-off and onValid; validator entry points are referenced only inside that region; (R02.2) delivery ownership chain notifySubs <- publishMessage(+Batch) <- pushMsg(after markSeen fresh)/sendMsg arm; sends on sendMsg only in sendMsgBlocking, referenced only by the validation worker and Topic.Publish after a nil error from the local validation chain; (R02.3) each TimeCache.Add/Has accesses the map under its lock (exclusive for writes) and Add returns fresh only on the key-absent edge; (R02.4) entries are deleted only by sweep under expiry.Before(now) and stored only as now+ttl; (R02.5) the memoised message ID is accessed under the generator's mutex. NOT decided: TTL arithmetic over time, injectivity of message-ID functions.",
+		Explain: "Structural necessary conditions of C02: every path to a user validator or to local delivery passes a test-and-set of the seen cache that returned fresh, and that test-and-set is atomic. (R02.1) in validation.validate the fresh edge of markSeen dominates every validator invocation, the async hand-off and onValid; validator entry points are referenced only inside that region; (R02.2) delivery ownership chain notifySubs <- publishMessage(+Batch) <- pushMsg(after markSeen fresh)/sendMsg arm; sends on sendMsg only in sendMsgBlocking, referenced only by the validation worker and Topic.Publish after a nil error from the local validation chain; (R02.3) each TimeCache.Add/Has accesses the map under its lock (exclusive for writes) and Add returns fresh only on the key-absent edge; (R02.4) entries are deleted only by sweep under expiry.Before(now) and stored only as now+ttl; (R02.6) strategy semantics: the first-seen cache sets an expiry only on the key-absent edge, the last-seen cache refreshes it on every Add and on every Has of a known ID; (R02.5) the memoised message ID is accessed under the generator's mutex. NOT decided: TTL arithmetic over time, injectivity of message-ID functions.",
 		Assume:  []string{"sync.Mutex/RWMutex semantics", "time.Now().Add(ttl) is the only expiry constructor (checked syntactically)"},
 		Mutants: []Mutant{
 			{Name: "validate-ignore-markSeen", File: "validation.go", Old: "\tif !v.p.markSeen(id) {\n\t\tv.tracer.DuplicateMessage(msg)\n\t\treturn dupeErr{}\n\t} else {", New: "\tif !v.p.markSeen(id) && !synchronous {\n\t\tv.tracer.DuplicateMessage(msg)\n\t\treturn dupeErr{}\n\t} else {", Expect: "R02.1"},
@@ -25,6 +25,8 @@ func init() {
 			{Name: "firstseen-add-rlock", File: "timecache/first_seen_cache.go", Old: "func (tc *FirstSeenCache) Add(s string) bool {\n\ttc.lk.Lock()\n\tdefer tc.lk.Unlock()", New: "func (tc *FirstSeenCache) Add(s string) bool {\n\ttc.lk.RLock()\n\tdefer tc.lk.RUnlock()", Expect: "R02.3"},
 			{Name: "firstseen-add-split-section", File: "timecache/first_seen_cache.go", Old: "\t_, ok := tc.m[s]\n\tif ok {\n\t\treturn false\n\t}\n\n\ttc.m[s] = time.Now().Add(tc.ttl)", New: "\t_, ok := tc.m[s]\n\tif ok {\n\t\treturn false\n\t}\n\ttc.lk.Unlock()\n\texp := time.Now().Add(tc.ttl)\n\ttc.lk.Lock()\n\ttc.m[s] = exp", Expect: "R02.3"},
 			{Name: "lastseen-add-always-fresh", File: "timecache/last_seen_cache.go", Old: "\treturn !ok\n", New: "\treturn !ok || len(tc.m) > 1<<20\n", Expect: "R02.3"},
+			{Name: "lastseen-add-no-refresh", File: "timecache/last_seen_cache.go", Old: "\t_, ok := tc.m[s]\n\ttc.m[s] = time.Now().Add(tc.ttl)\n\n\treturn !ok", New: "\tif _, ok := tc.m[s]; ok {\n\t\treturn false\n\t}\n\ttc.m[s] = time.Now().Add(tc.ttl)\n\treturn true", Expect: "R02.6"},
+			{Name: "firstseen-has-refreshes", File: "timecache/first_seen_cache.go", Old: "\ttc.lk.RLock()\n\tdefer tc.lk.RUnlock()\n\n\t_, ok := tc.m[s]\n\treturn ok", New: "\ttc.lk.Lock()\n\tdefer tc.lk.Unlock()\n\n\t_, ok := tc.m[s]\n\tif ok {\n\t\ttc.m[s] = time.Now().Add(tc.ttl)\n\t}\n\treturn ok", Expect: "R02.6"},
 			{Name: "sweep-no-expiry-test", File: "timecache/util.go", Old: "\t\tif expiry.Before(now) {", New: "\t\tif expiry.Before(now) || len(m) > 1<<16 {", Expect: "R02.4"},
 			{Name: "publish-dup-republish", File: "topic.go", Old: "\t\tif errors.Is(err, dupeErr{}) {\n\t\t\t// If it was a duplicate, we return nil to indicate success.\n\t\t\t// Semantically the message was published by us or someone else.\n\t\t\treturn nil\n\t\t}\n\t\treturn err\n\t}\n\treturn t.p.val.sendMsgBlocking(msg)", New: "\t\tif errors.Is(err, dupeErr{}) && msg != nil {\n\t\t\treturn t.p.val.sendMsgBlocking(msg)\n\t\t}\n\t\treturn err\n\t}\n\treturn t.p.val.sendMsgBlocking(msg)", Expect: "R02.2"},
 			{Name: "midgen-unlocked", File: "midgen.go", Old: "\tm.Lock()\n\tdefer m.Unlock()\n\tif msg.ID != \"\" {", New: "\tif msg.ID != \"\" {", Expect: "R02.5"},
@@ -510,6 +512,51 @@ func runC02(c *RuleCtx) {
 			}
 			return true
 		})
+	}
+	// R02.6 strategy semantics: first-seen never refreshes, last-seen refreshes on every sighting
+	{
+		isStoreTo := func(f *Func, field string) func(ast.Node) bool {
+			return func(n ast.Node) bool {
+				as, ok := n.(*ast.AssignStmt)
+				if !ok {
+					return false
+				}
+				for _, l := range as.Lhs {
+					if ix, ok := unparen(l).(*ast.IndexExpr); ok && p.R(f).Val(ix.X).IsField(field) {
+						return true
+					}
+				}
+				return false
+			}
+		}
+		fm := "timecache.FirstSeenCache.m"
+		present := AtomLookupOK("key present", isFieldOf(fm), nil)
+		for _, s := range p.StoresTo(fm) {
+			if s.Kind != "elem-assign" {
+				continue
+			}
+			ok, why := p.DomAny(s.Fn, s.Node, AtomWant{present, false})
+			c.Check(ok, "R02.6", s.Fn.Name, "first-seen: expiry set only on first sighting", s.Node, why, why)
+		}
+		lm := "timecache.LastSeenCache.m"
+		if f := c.MustFn("R02.6", "timecache.(*LastSeenCache).Add"); f != nil {
+			g := p.Graph(f)
+			ok, _ := g.MustPass(g.Entry(), PassOpts{}, isStoreTo(f, lm))
+			c.Check(ok, "R02.6", f.Name, "last-seen: Add refreshes the expiry on every path", f.Decl, "every path stores now+ttl", "a path through Add (e.g. for an already known ID) does not refresh the expiry: the TTL would count from the first sighting")
+		}
+		if f := c.MustFn("R02.6", "timecache.(*LastSeenCache).Has"); f != nil {
+			g := p.Graph(f)
+			pres := AtomLookupOK("key present", isFieldOf(lm), nil)
+			edges := g.AtomEdges(pres, true)
+			if len(edges) == 0 {
+				c.Bad("R02.6", f.Name, "last-seen: Has refreshes a known ID", f.Decl, "no key-present branch in Has")
+			}
+			for _, e := range edges {
+				ok, _ := g.MustPass(EdgeTarget(e), PassOpts{}, isStoreTo(f, lm))
+				c.Check(ok, "R02.6", f.Name, "last-seen: Has refreshes a known ID", f.Decl, "the key-present edge always stores now+ttl", "Has can report a known ID without refreshing its expiry")
+			}
+		}
+		c.Min["R02.6"] = 3
 	}
 	// R02.4 deletion only in sweep under expiry.Before(now); stores are now+ttl
 	if f := c.MustFn("R02.4", "timecache.sweep"); f != nil {
